@@ -219,18 +219,23 @@ class Fn(object):
             raise Unsupported("constant %r" % (e.value,))
         if isinstance(e, ast.Name):
             if e.id in env:
-                if env[e.id][1] == "Opaque":
-                    raise Unsupported("use of the f-string value " + e.id)
+                if env[e.id][1] in ("Opaque", "ChildRef"):
+                    raise Unsupported("use of the opaque value " + e.id)
                 return env[e.id]
             raise Unsupported("name %s" % e.id)
         if isinstance(e, ast.Attribute):
             if is_status_const(e):
                 return STATUS[e.attr], "Status"
-            if isinstance(e.value, ast.Name) and e.value.id == "self":
+            if isinstance(e.value, ast.Name) and e.value.id == "self" and e.attr != "decorated":
                 return self.field(env, e.attr)
             if e.attr == "status" and ast.unparse(e.value) == "self.decorated":
                 self.uses_child = True
                 return "child", "Status"
+            if e.attr == "status" and isinstance(e.value, ast.Name) and env.get(e.value.id, (None, None))[1] == "ChildRef":
+                self.uses_child = True
+                return "child", "Status"
+            if e.attr == "decorated" and isinstance(e.value, ast.Name) and e.value.id == "self":
+                return None, "ChildRef"      # a local alias of the decorated child (only its .status can be read)
             if isinstance(e.value, ast.Name) and e.value.id in self.consts_of \
                     and e.attr in self.consts_of[e.value.id]:
                 return char_list(self.consts_of[e.value.id][e.attr]), "Str"
@@ -335,7 +340,24 @@ class Fn(object):
                 raise Unsupported("slice")
             return "(Py.sliceFrom %s %s)" % (a, b), "Str"
         if isinstance(e, ast.JoinedStr):
-            return None, "Opaque"       # an f-string: only ever flows into the ignored feedback message
+            # an f-string whose pieces are all strings without conversions is a concatenation; any other f-string
+            # is opaque (it only ever flows into the ignored feedback message, any other use is rejected)
+            try:
+                out = []
+                for v in e.values:
+                    if isinstance(v, ast.Constant) and isinstance(v.value, str):
+                        if v.value:
+                            out.append(char_list(v.value))
+                    elif isinstance(v, ast.FormattedValue) and v.conversion == -1 and v.format_spec is None:
+                        a, t = self.expr(v.value, env)
+                        if t != "Str":
+                            return None, "Opaque"
+                        out.append(a)
+                    else:
+                        return None, "Opaque"
+                return "(" + " ++ ".join(out or ["([] : List Char)"]) + ")", "Str"
+            except Unsupported:
+                return None, "Opaque"
         raise Unsupported("expression " + ast.unparse(e))
 
     # -- statements ----------------------------------------------------------------------------
@@ -407,9 +429,9 @@ class Fn(object):
                 return "%slet %s : %s := %s\n%s" % (pad, n, LEAN_TYPE[t], v, self.block(rest, env, ind))
             if isinstance(tgt, ast.Name):
                 v, t = self.expr(val, env)
-                if t == "Opaque":
+                if t in ("Opaque", "ChildRef"):
                     env = dict(env)
-                    env[tgt.id] = (None, "Opaque")     # any later use in a translated expression is a type error
+                    env[tgt.id] = (None, t)     # Opaque: any later use in a translated expression is a type error
                     return self.block(rest, env, ind)
                 n = self.fresh("v_" + tgt.id)
                 env = dict(env)
